@@ -3,7 +3,9 @@ package main
 import (
 	"crypto/sha256"
 	"fmt"
+	"hash/fnv"
 	"math/big"
+	"sort"
 	"strings"
 
 	core "github.com/osmosis-labs/osmosis/v31/zzverif/res04"
@@ -288,6 +290,18 @@ func buildItems(thorough bool) []workItem {
 	// ---- part 2: sequences
 	items = append(items, seqItems(thorough)...)
 
-	// interleave deterministically so that neighbouring (similarly expensive) items land on different shards
+	// deterministic interleaving (order by a hash of the item name): every class of work (balancer lattice,
+	// stableswap lattice, single-asset joins, sequences) is spread evenly over the shards and over the
+	// run, so a deadline cuts all classes proportionally instead of dropping the last ones entirely
+	sort.SliceStable(items, func(i, j int) bool {
+		hi, hj := fnv.New64a(), fnv.New64a()
+		hi.Write([]byte(items[i].name))
+		hj.Write([]byte(items[j].name))
+		a, b := hi.Sum64(), hj.Sum64()
+		if a != b {
+			return a < b
+		}
+		return items[i].name < items[j].name
+	})
 	return items
 }
